@@ -22,7 +22,7 @@ C09-s7-accept-hangs-after-early-ended-request|revert-S7-12ccc99.diff|C09|C09.acc
 C13-s8-setting-above-varint-range-panics|revert-S8-bf4b4d9.diff|C13|C13.panic
 C17-s9-recv-id-panics-while-read-pending|revert-S9-e515501.diff|C17|C17.panic
 C17-s10-stop-sending-escalates-to-internal-error|revert-S10-b3b3759.diff|C17|C17.stream_error_escalated_to_connection_error
-C18-s11-quarter-stream-id-always-zero|revert-S11-234e5d2.diff|C18|C18.wire_encoding_wrong
+C18-s11-quarter-stream-id-always-zero|revert-S11-234e5d2.diff|C18|C18.buf_chunk_wrong
 C19-s12-session-id-is-stream-index|revert-S12-40f99ec.diff|C19|C19.session_id_not_connect_stream_id
 C19-s17-accept-uni-not-woken|revert-S17-05d45b2.diff|C19|C19.uni_stream_not_surfaced
 C20-s18-table-shrunk-below-its-size|revert-S18-4008c51.diff|C20|C20.table_exceeds_capacity
